@@ -7,6 +7,7 @@ import (
 	"fmt"
 	"io"
 	"math/rand"
+	"net"
 	"sort"
 	"testing"
 
@@ -18,6 +19,10 @@ import (
 )
 
 var verifSentinel = errors.New("verif: injected transport failure")
+
+// a transport error that is itself a standard-library wrapper (as real sockets return): the root cause the
+// statement asks for is this very value, not what it wraps
+var verifSentinelOp error = &net.OpError{Op: "read", Net: "tcp", Err: fmt.Errorf("verif: %w", errors.New("connection reset by peer"))}
 
 // counters of the re-used C02 trace generator go here when C08 borrows it (never written out)
 var verifScratchMon = mon.New("C08", "scratch-unused")
@@ -108,6 +113,10 @@ func verifReadUntilError(rd io.Reader, max int) ([]verifMsg, error) {
 }
 
 func verifCheckPrefix(m *mon.M, sig string, rep map[string]interface{}, msgs []verifMsg, ends []int, delivered int, got []verifMsg, err error, wantSentinel bool) bool {
+	return verifCheckPrefixS(m, sig, rep, msgs, ends, delivered, got, err, wantSentinel, verifSentinel)
+}
+
+func verifCheckPrefixS(m *mon.M, sig string, rep map[string]interface{}, msgs []verifMsg, ends []int, delivered int, got []verifMsg, err error, wantSentinel bool, sentinel error) bool {
 	// expected: exactly the messages wholly inside the delivered prefix
 	nexp := sort.SearchInts(ends, delivered+1)
 	if err == nil {
@@ -125,8 +134,8 @@ func verifCheckPrefix(m *mon.M, sig string, rep map[string]interface{}, msgs []v
 		}
 	}
 	if wantSentinel {
-		if oe.Cause(err) != verifSentinel {
-			m.Violationf(sig+":root-cause-lost", rep, "root cause is %T %q, not the transport's error (full error: %v)", oe.Cause(err), oe.Cause(err), err)
+		if oe.Cause(err) != sentinel {
+			m.Violationf(sig+":root-cause-lost", rep, "root cause is %T %q, not the transport's error %T (full error: %v)", oe.Cause(err), oe.Cause(err), sentinel, err)
 			return false
 		}
 	} else if !verifIsEOF(err) {
@@ -189,6 +198,13 @@ func TestVerif_C08_RtmpRead(t *testing.T) {
 				if !verifCheckPrefix(m, "c08:rtmp-cut", rep, msgs, ends, c, got, err, false) {
 					return
 				}
+				// the same cut, with the last bytes arriving together with io.EOF in one Read
+				rd = &vnet.CutReader{Data: data, Cut: c, Seg: vnet.PickSeg(r), DataWithErr: true}
+				got, err = verifReadUntilError(rd, len(msgs)+1)
+				m.Count("cut_offsets_data_with_eof", 1)
+				if !verifCheckPrefix(m, "c08:rtmp-cut:data+eof", rep, msgs, ends, c, got, err, false) {
+					return
+				}
 			}
 			m.Classf("cuts/%s/msgs%d", src, len(msgs))
 		})
@@ -215,13 +231,21 @@ func TestVerif_C08_RtmpRead(t *testing.T) {
 					} else {
 						rd = &vnet.CutReader{Data: data, Cut: N, Seg: mk(), Err: verifSentinel, FailAtCall: k}
 					}
+					variant := k % 4 // 0: (0,err) plain; 1: (n,err) plain; 2: (0,err) std-wrapper error; 3: (n,err) std-wrapper error
+					sentinel := verifSentinel
+					if variant >= 2 {
+						sentinel = verifSentinelOp
+					}
+					rd.Err = sentinel
+					rd.DataWithErr = variant%2 == 1
 					got, err := verifReadUntilError(rd, len(msgs)+1)
 					m.Count("read_call_indexes_enumerated", 1)
+					m.Count(fmt.Sprintf("read_fault_variant_%d", variant), 1)
 					if rd.Reads < k {
 						// the reader finished before reaching call k (possible under the re-seeded random segmentation)
 						continue
 					}
-					if !verifCheckPrefix(m, "c08:rtmp-read-fault", rep, msgs, ends, rd.Offset(), got, err, true) {
+					if !verifCheckPrefixS(m, fmt.Sprintf("c08:rtmp-read-fault:v%d", variant), rep, msgs, ends, rd.Offset(), got, err, true, sentinel) {
 						return
 					}
 				}
